@@ -41,6 +41,9 @@ FUNCTIONS = [
     "RcWord::new", "ThreadId::current_thread", "ThreadId::eq",
     "RcBox::increment", "RcBox::fast_increment", "RcBox::slow_increment",
     "RcBox::decrement", "RcBox::fast_decrement", "RcBox::slow_decrement", "RcBox::has_unique_ref",
+    "BiasedRc::new", "BiasedRc::get_mut", "BiasedRc::make_mut", "BiasedRc::try_unwrap", "BiasedRc::try_unwrap_internal",
+    "BiasedRc::try_unwrap_internal_same_thread", "BiasedRc::clone", "BiasedRc::drop", "BiasedRc::strong_count",
+    "BiasedRc::drop_contents_and_maybe_box", "QueueHandle::explicit_merge", "BiasedMerge::merge",
 ]
 
 I_TEXT = ("I: A==refs_me+refs_others, tid==None=>merged, tid==Some(me)=>!merged&&biased>=1, "
@@ -84,6 +87,22 @@ SPECS = [
          contract="owner decrements privately, others through the CAS path and never touch biased/tid; Deallocate => refs'==0; I'"),
     dict(name="has_unique_ref_contract", kind="proof", functions=["RcBox::has_unique_ref"],
          contract="requires I && refs_me>=1; ensures result => refs_me==1 && refs_others==0; the count is not changed (I still holds with the same ghost refs; no write without CAS)"),
+    dict(name="get_mut_contract", kind="proof", functions=["BiasedRc::get_mut", "RcBox::has_unique_ref", "BiasedRc::new"],
+         contract="requires I && refs_me>=1; Some(_) => refs_me==1 && refs_others==0; I unchanged; payload not dropped"),
+    dict(name="make_mut_contract", kind="proof", functions=["BiasedRc::make_mut", "BiasedRc::drop", "BiasedRc::new"],
+         contract="if any other reference exists the caller ends up on a fresh private allocation (biased 1, shared 0) and gives up exactly one reference to the old one (I on the old word); contents equal"),
+    dict(name="try_unwrap_contract", kind="proof", functions=["BiasedRc::try_unwrap", "BiasedRc::try_unwrap_internal", "BiasedRc::try_unwrap_internal_same_thread"],
+         contract="Ok => it was the only reference of any thread, payload moved out not dropped; Err => word/biased/tid unchanged, I"),
+    dict(name="clone_contract", kind="proof", functions=["BiasedRc::clone", "RcBox::increment"],
+         contract="same allocation, I[refs_me+1], under interference"),
+    dict(name="drop_contract", kind="proof", functions=["BiasedRc::drop", "RcBox::decrement", "BiasedRc::drop_contents_and_maybe_box"],
+         contract="payload destroyed => no reference of any thread remains; enqueued <=> this drop flipped queued; no reference and nothing pending => destroyed now"),
+    dict(name="strong_count_contract", kind="proof", functions=["BiasedRc::strong_count"],
+         contract="read-only; exact (== live references) once merged"),
+    dict(name="explicit_merge_contract", kind="proof", functions=["QueueHandle::explicit_merge", "BiasedRc::drop_contents_and_maybe_box_outer"],
+         contract="requires I && owner==me && pending (one queue entry); ensures entry consumed, A'==A, merged', pending cleared; A==0 => destroyed exactly once; else not destroyed && tid'==None && I", bound=None),
+    dict(name="biased_merge_contract", kind="proof", functions=["BiasedMerge::merge"],
+         contract="same as explicit_merge for one entry"),
     dict(name="has_unique_ref_complete_contract", kind="proof", functions=["RcBox::has_unique_ref"],
          contract="refs==1 && (no owner || owner==me && shared counter==0) => true"),
 ]
